@@ -35,6 +35,7 @@ import (
 	"runtime/debug"
 	"strconv"
 	"strings"
+	"sync/atomic"
 	"time"
 
 	lunar_messages "lunar/engine/messages"
@@ -62,6 +63,7 @@ type Tx struct {
 	BodyB64   string            `json:"body_b64,omitempty"`
 	Status    int               `json:"status,omitempty"`
 	Full      bool              `json:"full,omitempty"`
+	NoScheme  bool              `json:"no_scheme,omitempty"` // the message carries no scheme argument
 	Pre       []Tx              `json:"pre,omitempty"` // unobserved warm-up transactions run before this one
 }
 
@@ -80,6 +82,8 @@ type step struct {
 }
 
 type overlong struct{}
+
+const watchdog = 90 * time.Second
 
 var (
 	cur      []step
@@ -112,7 +116,8 @@ func sink(point string, kv ...any) {
 		cur[len(cur)-1] = s
 	}
 	nsteps++
-	if !natural && nsteps > curLimit {
+	// natural mode lets a runaway walk meet its own fate (stack overflow) but not for ever
+	if (!natural && nsteps > curLimit) || nsteps > 2_000_000 {
 		panic(overlong{})
 	}
 }
@@ -158,9 +163,37 @@ func parent(casesPath, outPath string, nat bool) {
 		cmd.Env = append(os.Environ(), "C04_TMP="+base)
 		var stderr strings.Builder
 		cmd.Stderr = &limitedWriter{b: &stderr, max: 4000}
-		err := cmd.Run()
+		// watchdog: a child that writes nothing for a minute is stuck in the operation it announced last
+		var stuck atomic.Bool
+		err := cmd.Start()
+		if err == nil {
+			done := make(chan struct{})
+			go func() {
+				last, since := int64(-1), time.Now()
+				for {
+					select {
+					case <-done:
+						return
+					case <-time.After(2 * time.Second):
+					}
+					if fi, e := os.Stat(outPath); e == nil && fi.Size() != last {
+						last, since = fi.Size(), time.Now()
+					} else if time.Since(since) > watchdog {
+						stuck.Store(true)
+						cmd.Process.Kill()
+						return
+					}
+				}
+			}()
+			err = cmd.Wait()
+			close(done)
+		}
 		if err == nil {
 			return
+		}
+		if stuck.Load() {
+			stderr.Reset()
+			stderr.WriteString(fmt.Sprintf("no return within %s: killed by the executor's watchdog", watchdog))
 		}
 		os.RemoveAll(base) // what a killed child left behind
 		os.MkdirAll(base, 0o755)
@@ -485,8 +518,12 @@ func runTx(eng *streams.Stream, shared public_types.SharedStateI[[]byte], tx Tx)
 		if i := strings.Index(path, "?"); i >= 0 {
 			path, query = path[:i], path[i+1:]
 		}
+		scheme := "https"
+		if tx.NoScheme {
+			scheme = ""
+		}
 		args := lunar_messages.OnRequest{
-			LunarName: name, ID: tx.ID, SequenceID: tx.ID, Method: tx.Method, Scheme: "https", URL: tx.URL,
+			LunarName: name, ID: tx.ID, SequenceID: tx.ID, Method: tx.Method, Scheme: scheme, URL: tx.URL,
 			Path: path, Query: query, Headers: headers, RawBody: body, Time: now,
 		}
 		api := stream_types.NewRequestAPIStream(args, shared)
